@@ -58,6 +58,35 @@ fn programs(thorough: bool) -> Vec<(String, Vec<Stmt>)> {
     out.push(("seg-two-relocated".into(), vec![seg("a", hex(0x1000), None), seg("b", hex(0x2000), Some(hex(0x9000))), Stmt::Segment { name: string("a"), block: Some(body("la")) }, Stmt::Segment { name: string("b"), block: Some(body("lb")) }]));
     out.push(("seg-overlapping-targets".into(), vec![seg("a", hex(0x1000), None), seg("b", hex(0x3000), Some(hex(0x1000))), Stmt::Segment { name: string("a"), block: Some(body("la")) }, Stmt::Segment { name: string("b"), block: Some(body("lb")) }]));
     out.push(("seg-interleaved".into(), vec![seg("a", hex(0x1000), None), seg("b", hex(0x2000), None), Stmt::Segment { name: string("a"), block: Some(vec![nop()]) }, Stmt::Segment { name: string("b"), block: Some(vec![imp("inx")]) }, Stmt::Segment { name: string("a"), block: Some(vec![imp("iny")]) }]));
+    // one source line (the invocation) emitting into two segments; a loop whose iterations alternate segments
+    for (tag, pb) in [("", None), ("-relocated", Some(hex(0x9000)))] {
+        for calls in 1..=2 {
+            let mut p = vec![
+                seg("a", hex(0x1000), None),
+                seg("b", hex(0x2000), pb.clone()),
+                Stmt::MacroDef {
+                    name: "two".into(),
+                    params: vec!["v".into()],
+                    body: vec![
+                        Stmt::Segment { name: string("a"), block: Some(vec![ins("lda", Form::Imm, id("v"))]) },
+                        Stmt::Segment { name: string("b"), block: Some(vec![ins("ldx", Form::Imm, id("v")), imp("inx")]) },
+                    ],
+                },
+            ];
+            for c in 0..calls {
+                p.push(Stmt::MacroCall { name: "two".into(), args: vec![num(7 + c)] });
+            }
+            out.push((format!("seg-macro-two-segments{}-x{}", tag, calls), p));
+        }
+        out.push((format!("seg-loop-two-segments{}", tag), vec![
+            seg("a", hex(0x1000), None),
+            seg("b", hex(0x2000), pb.clone()),
+            Stmt::Loop { count: num(2), body: vec![
+                Stmt::Segment { name: string("a"), block: Some(vec![ins("lda", Form::Imm, id("index"))]) },
+                Stmt::Segment { name: string("b"), block: Some(vec![ins("ldx", Form::Imm, id("index"))]) },
+            ] },
+        ]));
+    }
     if thorough {
         // all pairs of the small bodies in two segments x relocation of either
         for (i, pa) in [None, Some(hex(0x8000))].iter().enumerate() {
@@ -343,7 +372,7 @@ pub fn run(ctx: &Ctx, replay: Option<&Value>) -> i32 {
     progs.par_iter().for_each(|(name, prog)| check(ctx, &isa, name, prog, &bpl));
     ctx.finish(
         "exploration",
-        "programs with every emitting statement kind, a line emitting more than 16 bytes, nested scopes, pc assignments and .align, loops (0/1/3 iterations), conditionals, a macro invoked 1-3 times and inside a loop, 1-2 segments plain / relocated / interleaved / with overlapping target ranges (all relocation pairs in thorough) x macro attribution mode x bytes-per-line 1..16 (quick 1, 8, 16). The certificate walker gives the emitting statement of every byte; the source map must attribute exactly those target ranges to spans inside those statements, and the listing must show per source line exactly those bytes in emission order with correct row addresses, every line once. non-trivial = certified successful build x attribution mode",
+        "programs with every emitting statement kind, a line emitting more than 16 bytes, nested scopes, pc assignments and .align, loops (0/1/3 iterations), conditionals, a macro invoked 1-3 times and inside a loop, 1-2 segments plain / relocated / interleaved / with overlapping target ranges (all relocation pairs in thorough), a macro invocation line and a loop that emit into two segments x macro attribution mode x bytes-per-line 1..16 (quick 1, 8, 16). The certificate walker gives the emitting statement of every byte; the source map must attribute exactly those target ranges to spans inside those statements, and the listing must show per source line exactly those bytes in emission order with correct row addresses, every line once. non-trivial = certified successful build x attribution mode",
         true,
         &[
             "imports are not covered (the certificate walker does not model them)",
